@@ -28,6 +28,8 @@ pub struct Process {
     timestamp: i64,
     env: ShareLock<Vars>,
     runtime: Arc<Runtime>,
+    // serializes the client actions on this process
+    sync: Arc<std::sync::Mutex<()>>,
 }
 
 impl fmt::Debug for Process {
@@ -59,7 +61,7 @@ impl Process {
             start_time: Arc::new(RwLock::new(0)),
             end_time: Arc::new(RwLock::new(0)),
             tasks: Arc::new(RwLock::new(TaskTree::new())),
-            // sync: Arc::new(std::sync::Mutex::new(0)),
+            sync: Arc::new(std::sync::Mutex::new(())),
             timestamp,
             env: Arc::new(RwLock::new(Vars::new())),
             err: Arc::new(RwLock::new(None)),
@@ -272,6 +274,9 @@ impl Process {
 
     #[instrument()]
     pub fn do_action(self: &Arc<Self>, action: &Action) -> Result<()> {
+        // two client threads closing sibling acts both review the parent: each would find every child
+        // finished and create the successor, so the actions of one process take turns
+        let _lock = self.sync.lock().unwrap_or_else(|e| e.into_inner());
         let mut action = action.clone();
         let task = self.task(&action.tid).ok_or(ActError::Action(format!(
             "cannot find task by '{}' tasks={:?}",
